@@ -83,8 +83,11 @@ func (req *TimeStampReq) SanityCheckToken(psd *pkcs7.ContentInfoSignedData) erro
 	if err != nil {
 		return err
 	}
-	if req.Nonce.Cmp(info.Nonce) != 0 {
+	if info.Nonce == nil || req.Nonce.Cmp(info.Nonce) != 0 {
 		return errors.New("request nonce mismatch")
+	}
+	if !info.MessageImprint.HashAlgorithm.Algorithm.Equal(req.MessageImprint.HashAlgorithm.Algorithm) {
+		return errors.New("message imprint algorithm mismatch")
 	}
 	if !hmac.Equal(info.MessageImprint.HashedMessage, req.MessageImprint.HashedMessage) {
 		return errors.New("message imprint mismatch")
